@@ -349,7 +349,8 @@ pub fn render_integer(
 	}
 
 	out.reserve(zp2 as usize);
-	if iv != 0 {
+	// The octal prefix is a leading zero digit (not repeated for 0), the hex prefix is always written
+	if iv != 0 || !prefix_in_padding {
 		out.push_str(zero_prefix);
 	}
 	for _ in 0..zp2 {
